@@ -25,7 +25,7 @@ Definition E_NOCONTROL := 12.  (* deb has no control.tar *)
 Definition E_UNKNOWN := 13.    (* checkSig: signature references unknown file *)
 Definition E_MISMATCH := 14.   (* checkSig: signature mismatch on file *)
 Definition E_UNCOVERED := 15.  (* checkSig: signature does not cover file *)
-Definition E_UNMODELLED := 90. (* member name with '/' : path.Clean is not modelled *)
+Definition E_UNMODELLED := 90. (* no longer produced (member names with '/' are modelled through deb_norm); kept for the error tables *)
 
 Module Lit.
   Import String Ascii.
@@ -426,7 +426,10 @@ Definition rtrim (l : bytes) : bytes := rev (drop_sp (rev l)).
 (* ar.Reader.string / numeric: trailing spaces removed, the first byte always kept *)
 Definition ar_trim (l : bytes) : bytes := match l with [] => [] | x :: r => x :: rtrim r end.
 
-Record member := mkMember { m_name : bytes; m_size : Z; m_data : bytes; m_off : Z }.
+(* m_name: hdr.Name as the ar reader returns it (trailing blanks of the 16-byte field removed, a trailing '/' of the System V /
+   GNU variant still there).  m_cname: the name every test of Sign is made on, `name := path.Clean(hdr.Name)` = deb_norm m_name
+   (generated); Verify looks at hdr.Name itself, there m_cname = m_name. *)
+Record member := mkMember { m_name : bytes; m_size : Z; m_data : bytes; m_off : Z; m_cname : bytes }.
 Definition has_slash (n : bytes) : bool := existsb (fun c => c =? 47) n.
 
 (* the member loop shared by Sign (verify = false; chk = the control.tar check) and Verify (verify = true).
@@ -436,25 +439,25 @@ Fixpoint ar_scan (fuel : nat) (verify : bool) (chk : bytes -> bytes -> bool) (po
   | O => Ok ([], pos)
   | S k =>
       if zlen l =? 0 then Ok ([], pos)
-      else if zlen l <? 60 then Err E_SHORT
+      else if zlen l <? 60 then (if verify || deb_next_err_returns then Err E_SHORT else Ok ([], pos + zlen l))
       else
         let h := ztake 60 l in
         let body := zdrop 60 l in
         if zlen (ar_trim (zslice 40 48 h)) <? 3 then Panic 3 else
         let name := ar_trim (zslice 0 16 h) in
+        let cname := if verify then name else deb_norm name in
         let size := go_parse_int (ar_trim (zslice 48 58 h)) in
-        if negb verify && has_slash name then Err E_UNMODELLED else
-        let gpg := if verify then deb_v_is_gpg name else deb_is_gpg name in
+        let gpg := if verify then deb_v_is_gpg name else deb_is_gpg cname in
         if size <? 0 then
           (if gpg && negb verify then
              r <- ar_scan k verify chk (pos + 60) body ;;
-             Ok (mkMember name size [] pos :: fst r, snd r)
+             Ok (mkMember name size [] pos cname :: fst r, snd r)
            else Panic 4)
         else
           let data := ztake size body in
           let pad := size mod 2 in
-          if negb gpg && negb (chk name data) then Err E_CONTROL else
-          let m := mkMember name size data pos in
+          if negb gpg && negb (chk cname data) then Err E_CONTROL else
+          let m := mkMember name size data pos cname in
           if zlen body <? size + pad then Ok ([m], pos + 60 + zlen body)
           else
             r <- ar_scan k verify chk (pos + 60 + size + pad) (zdrop (size + pad) body) ;;
@@ -469,12 +472,14 @@ Definition deb_chk (ctl : bytes -> bytes -> bool) (name data : bytes) : bool :=
     let ext := zdrop deb_ext_from name in
     existsb (bytes_eqb ext) deb_ctl_exts && ctl ext data
   else true.
-Definition deb_signed_members (ms : list member) : list member := filter (fun m => negb (deb_is_gpg (m_name m))) ms.
+Definition deb_signed_members (ms : list member) : list member := filter (fun m => negb (deb_is_gpg (m_cname m))) ms.
+(* the members that get a line in the Files: section: those after the `continue` of the _gpg test *)
+Definition deb_listed_members (ms : list member) : list member := if deb_line_after_skip then deb_signed_members ms else ms.
 
 Record debscan := mkScan { ds_members : list member; ds_n : Z }.
 Definition deb_scan (ctl : bytes -> bytes -> bool) (f : bytes) : result debscan :=
   r <- ar_members false (deb_chk ctl) f ;;
-  if deb_no_control (negb (existsb (fun m => deb_is_control (m_name m)) (deb_signed_members (fst r)))) then Err E_NOCONTROL
+  if deb_no_control (negb (existsb (fun m => deb_is_control (m_cname m)) (deb_signed_members (fst r)))) then Err E_NOCONTROL
   else Ok (mkScan (fst r) (snd r)).
 
 (* hashin: an injective encoding of what determines the "Files:" section of the signed manifest — for every member that
@@ -483,10 +488,10 @@ Definition deb_scan (ctl : bytes -> bytes -> bool) (f : bytes) : result debscan 
    "\t<md5> <sha1> <size> <name>" lines; the harness compares those.) *)
 Definition pad_sp (n : nat) (s : bytes) : bytes := firstn n (s ++ repeat 32 n).
 Definition ser_member (m : member) : bytes :=
-  pad_sp 16 (m_name m) ++ be_enc 8 (m_size m) ++ be_enc 8 (zlen (m_data m)) ++ m_data m.
+  pad_sp 16 (deb_line_name (m_name m) (m_cname m)) ++ be_enc 8 (m_size m) ++ be_enc 8 (zlen (m_data m)) ++ m_data m.
 Definition ser_members (ms : list member) : bytes := concat (map ser_member ms).
 Definition deb_hashin (ctl : bytes -> bytes -> bool) (f : bytes) : result bytes :=
-  s <- deb_scan ctl f ;; Ok (ser_members (deb_signed_members (ds_members s))).
+  s <- deb_scan ctl f ;; Ok (ser_members (deb_listed_members (ds_members s))).
 
 (* the appended / replacing member: ar.Writer.WriteHeader + Write *)
 Definition ar_whdr (name : bytes) (mtime mode size : Z) : bytes :=
@@ -495,8 +500,13 @@ Definition ar_whdr (name : bytes) (mtime mode size : Z) : bytes :=
 Definition ar_wmember (name : bytes) (mtime mode : Z) (data : bytes) : bytes :=
   ar_whdr name mtime mode (zlen data) ++ data ++ (if zlen data mod 2 =? 1 then [10] else []).
 
+(* `if name == filename { patchOffset = ...; patchLength = ... }`: made on the normalised name, for every member when the test
+   stands before the `continue` of the _gpg test (deb_slot_before_skip, generated), otherwise only for members that are not skipped;
+   a later hit overwrites an earlier one *)
+Definition deb_slot_hit (filename : bytes) (m : member) : bool :=
+  (deb_slot_before_skip || negb (deb_is_gpg (m_cname m))) && deb_is_slot (m_cname m) filename.
 Definition deb_slot (filename : bytes) (ms : list member) : option member :=
-  fold_left (fun acc m => if deb_is_slot (m_name m) filename then Some m else acc) ms None.
+  fold_left (fun acc m => if deb_slot_hit filename m then Some m else acc) ms None.
 Definition deb_embed (ctl : bytes -> bytes -> bool) (role : bytes) (mtime : Z) (f blob : bytes) : result bytes :=
   s <- deb_scan ctl f ;;
   let filename := deb_filename role in
@@ -511,7 +521,7 @@ Definition deb_embed (ctl : bytes -> bytes -> bool) (role : bytes) (mtime : Z) (
 (* Verify: the signature members (role, blob) in archive order, and the digest map source *)
 Definition deb_sigs (f : bytes) : result (list (bytes * bytes)) :=
   r <- ar_members true (fun _ _ => true) f ;;
-  Ok (map (fun m => (zdrop deb_v_role_from (m_name m), m_data m)) (filter (fun m => deb_v_is_gpg (m_name m)) (fst r))).
+  Ok (map (fun m => (deb_v_sig_key (zdrop deb_v_role_from (deb_v_role_src (m_name m))), m_data m)) (filter (fun m => deb_v_is_gpg (m_name m)) (fst r))).
 Definition lookup_last (k : bytes) (m : list (bytes * bytes)) : option bytes :=
   fold_left (fun acc kv => if bytes_eqb (fst kv) k then Some (snd kv) else acc) m None.
 Definition deb_extract (role : bytes) (f : bytes) : result (option bytes) :=
@@ -521,10 +531,10 @@ Definition deb_is_signed (f : bytes) : result bool := s <- deb_sigs f ;; Ok (neg
 Definition deb_vmembers (f : bytes) : result (list member) :=
   r <- ar_members true (fun _ _ => true) f ;; Ok (filter (fun m => negb (deb_v_is_gpg (m_name m))) (fst r)).
 Definition deb_digests (D : bytes -> bytes) (ms : list member) : list (bytes * bytes) :=
-  map (fun m => (m_name m, D (m_data m))) ms.
+  map (fun m => (deb_v_key (m_name m), D (m_data m))) ms.
 (* the signed manifest at line level: (sums, name) per file line *)
 Definition deb_lines (D : bytes -> bytes) (ms : list member) : list (bytes * bytes) :=
-  map (fun m => (D (m_data m), m_name m)) ms.
+  map (fun m => (D (m_data m), deb_line_name (m_name m) (m_cname m))) ms.
 (* checkSig on parsed lines *)
 Fixpoint check_lines (lines : list (bytes * bytes)) (dg : list (bytes * bytes)) : result unit :=
   match lines with
@@ -637,4 +647,58 @@ Definition deb_wf (ctl : bytes -> bytes -> bool) (f : bytes) : bool :=
   end.
 Definition deb_embed_wf (ctl : bytes -> bytes -> bool) (role : bytes) (mtime : Z) (f blob : bytes) : result bytes :=
   if deb_wf ctl f && role_ok role && (zlen blob <? 10000000000) && (0 <=? mtime) then deb_embed ctl role mtime f blob
+  else Err E_DOMAIN.
+
+(* ================================================================== Debian: member NAMES (signature slots)
+   SPECIFICATION, from the format descriptions.  ar(5): the common / BSD variant stores a name left-aligned and padded with
+   blanks to the 16 bytes of the field (what dpkg-deb, BSD ar and relic's writer produce); the System V / GNU variant
+   terminates the name by a slash and then pads with blanks (what GNU ar — and therefore debsigs, which runs `ar q` — produce;
+   a 15-character name plus its slash fills the field).  deb(5): "the file names might contain a trailing slash".
+   The logical name of a name field is therefore: blanks off the right end, then ONE trailing slash off.  References into the
+   GNU long-name table ("/123"), the table itself ("//"), the symbol table ("/") and BSD "#1/<len>" names are something else;
+   they are outside the domain below (logical names are non-empty and contain no slash), as they are outside what dpkg reads. *)
+Definition strip_slash (n : bytes) : bytes :=
+  match rev n with c :: r => if c =? 47 then rev r else n | [] => n end.
+Definition ar_logical (field : bytes) : bytes := strip_slash (rtrim field).
+Definition spell_plain (n : bytes) : bytes := spec_field 16 n.             (* BSD ar, dpkg-deb, relic *)
+Definition spell_sysv (n : bytes) : bytes := spec_field 16 (n ++ [47]).    (* GNU ar, debsigs *)
+Definition lname_ok (n : bytes) : bool :=
+  forallb name_char_ok n
+  && match n with c :: _ => negb (c =? 32) | [] => false end
+  && match rev n with c :: _ => negb (c =? 32) | [] => false end.
+Definition is_spelling (n field : bytes) : bool :=
+  (bytes_eqb field (spell_plain n) && (zlen n <=? 16)) || (bytes_eqb field (spell_sysv n) && (zlen n <=? 15)).
+Definition ent_lname (e : ent) : bytes := ar_logical (zslice 0 16 (e_hdr e)).
+Definition ent_spelled_ok (e : ent) : bool := lname_ok (ent_lname e) && is_spelling (ent_lname e) (zslice 0 16 (e_hdr e)).
+(* a signature member / the slot of a role, by logical name *)
+Definition ent_is_lsig (e : ent) : bool := has_prefix (ent_lname e) spec_gpg.
+Definition lslot (role : bytes) (e : ent) : bool := bytes_eqb (ent_lname e) (spec_sig_name role).
+(* the signing operation the property demands: the member whose LOGICAL name is _gpg<role> is replaced, else one is appended *)
+Definition spec_sign_l (role : bytes) (new : ent) (es : list ent) : list ent :=
+  match replace_last (lslot role) new es with
+  | Some es' => es'
+  | None => es ++ [new]
+  end.
+Definition ent_eqb (a b : ent) : bool := bytes_eqb (e_hdr a) (e_hdr b) && bytes_eqb (e_data a) (e_data b).
+(* the demand on the result as a decidable check on two parsed archives: exactly one member with the slot's logical name, it
+   carries the new signature, all other members are the same headers and data in the same order *)
+Definition slot_replaced_ok (role blob : bytes) (es es' : list ent) : bool :=
+  match filter (lslot role) es' with
+  | [new] => bytes_eqb (e_data new) blob
+  | _ => false
+  end
+  && list_eqb ent_eqb (filter (fun e => negb (lslot role e)) es') (filter (fun e => negb (lslot role e)) es).
+(* the domain of the slot theorems: the strict reader accepts; canonical sizes; every name field is one of the two spellings of
+   a proper logical name; logical names are pairwise different (one member per payload name and per signature role); relic's
+   member walk succeeds (control.tar present and readable) *)
+Definition deb_wf2 (ctl : bytes -> bytes -> bool) (f : bytes) : bool :=
+  match ar_spec_parse f with
+  | None => false
+  | Some es =>
+      forallb ent_ok es && forallb ent_spelled_ok es && forallb ent_mode_ok es
+      && distinct_names (map ent_lname es)
+      && is_ok (deb_scan ctl f)
+  end.
+Definition deb_embed_wf2 (ctl : bytes -> bytes -> bool) (role : bytes) (mtime : Z) (f blob : bytes) : result bytes :=
+  if deb_wf2 ctl f && role_ok role && (zlen blob <? 10000000000) && (0 <=? mtime) then deb_embed ctl role mtime f blob
   else Err E_DOMAIN.
